@@ -74,7 +74,7 @@ func (hp *httpPlan) server(addr string) *c10Server {
 		h = mix64(h, uint64(c))
 	}
 	obj := fmt.Sprintf(`{"name":%q,"cluster_name":"sim","ID":%q,"Name":%q,"version":{"number":"7.10.2"}}`, "node@"+addr, "ID@"+addr, "host@"+addr)
-	primary := &c10Resp{Status: 200, Framing: []string{"length", "chunked", "close"}[h%3], Pieces: 1 + int(h>>8%3), hdrDelay: time.Duration(h>>16%1000)*2*time.Microsecond + 1, pieceDelay: time.Duration(h>>32%1000)*2*time.Microsecond + 1, body: []byte(obj), Verdict: "object"}
+	primary := &c10Resp{KeepAlive: h>>50%2 == 0, Status: 200, Framing: []string{"length", "chunked", "close"}[h%3], Pieces: 1 + int(h>>8%3), hdrDelay: time.Duration(h>>16%1000)*2*time.Microsecond + 1, pieceDelay: time.Duration(h>>32%1000)*2*time.Microsecond + 1, body: []byte(obj), Verdict: "object"}
 	switch b {
 	case hbGoodSlow:
 		primary.hdrDelay = time.Duration(h>>16%uint64(hp.timeout/4/time.Microsecond))*time.Microsecond + 1
@@ -91,11 +91,11 @@ func (hp *httpPlan) server(addr string) *c10Server {
 	case hbEmptyObject:
 		primary.body = []byte("{}")
 	}
-	secondary := &c10Resp{Status: 200, Framing: "length", Pieces: 1, hdrDelay: 1, pieceDelay: 1, body: []byte(`{"idx":{"aliases":{}},"Version":"20.10.7","ApiVersion":"1.41"}`)}
+	secondary := &c10Resp{KeepAlive: h>>51%2 == 0, Status: 200, Framing: "length", Pieces: 1, hdrDelay: 1, pieceDelay: 1, body: []byte(`{"idx":{"aliases":{}},"Version":"20.10.7","ApiVersion":"1.41"}`)}
 	if h>>40%4 == 0 {
 		secondary.Status, secondary.body = 404, []byte("not found")
 	}
-	ping := &c10Resp{Status: 200, Framing: "length", body: []byte("OK"), Pieces: 1, hdrDelay: 1, APIVersion: []string{"1.41", "1.40", "1.24"}[h>>44%3]}
+	ping := &c10Resp{KeepAlive: h>>52%2 == 0, Status: 200, Framing: "length", body: []byte("OK"), Pieces: 1, hdrDelay: 1, APIVersion: []string{"1.41", "1.40", "1.24"}[h>>44%3]}
 	s := &c10Server{run: hp.run, tls: hp.tls}
 	s.route = func(method, path string) *c10Resp {
 		switch {
@@ -162,6 +162,25 @@ func runC08HTTPCmd(t *testing.T, c simrt.Chooser, o Opts) *Out {
 	for i := 2 + p.n("nmix", 5); i > 0; i-- {
 		hp.mix = append(hp.mix, all[p.n("mix", len(all))])
 	}
+	// descriptor budget of the scanner: generous for connections that are closed after use (one per
+	// worker plus dials the transport finishes in the background), far too small for one per endpoint
+	fdBudget := 0
+	if p.pct("fdlimit", 50) {
+		fdBudget = 2*s.Workers + 12
+		// (a connect to a black-holed address legitimately holds its socket until the kernel gives
+		// up, long after the probe timed out - the HTTP transport lets a dial run on in the
+		// background; such endpoints are left out of the runs with a descriptor budget)
+		var mix []int
+		for _, b := range hp.mix {
+			if b != hbBlackhole {
+				mix = append(mix, b)
+			}
+		}
+		if len(mix) == 0 {
+			mix = []int{hbGood}
+		}
+		hp.mix = mix
+	}
 	if p.pct("exitdelay", 40) {
 		s.ExitDelay = []string{"1ms", "50ms", "2s"}[p.n("ed", 3)]
 	}
@@ -170,7 +189,8 @@ func runC08HTTPCmd(t *testing.T, c simrt.Chooser, o Opts) *Out {
 		delay = parseDur(s.ExitDelay)
 	}
 	w := s.world()
-	w.tcp = func(n *simnet.Net) { hp.run = simrtCurrent(); hp.install(n) }
+	var tcpNet *simnet.Net
+	w.tcp = func(n *simnet.Net) { hp.run = simrtCurrent(); hp.install(n); n.MaxOpen = fdBudget; tcpNet = n }
 	w.maxVirt = time.Hour
 	sc := &c08HTTPScenario{Spec: s, World: w, Timeout: timeout.String()}
 	for _, b := range hp.mix {
@@ -339,6 +359,7 @@ func runC08HTTPCmd(t *testing.T, c simrt.Chooser, o Opts) *Out {
 	if len(wantRec) > 0 {
 		simrtProbe(&cr.Res, "http-endpoint-reported")
 	}
+	out.Stats["max_open_conns"] = tcpNet.MaxSeen
 	return out
 }
 
